@@ -51,10 +51,12 @@ theorem logon_get (s : JState) (k x : Nat) :
 
 /-! ### one iteration of backend() -/
 
-theorem B_cycle (sc : Scripts) (fs : FState) (js : JState) (w : World) (h : B fs js w) (hq : Quiet w) :
+theorem B_cycle (sc : Scripts) (fs : FState) (js : JState) (w : World) (h : B fs js w) (hq : Quiet w)
+    (hno : (cycleStep sc w).1.overflow = false) :
     B ((cycleStep sc w).2.foldl fifoStep fs) ((cycleStep sc w).2.foldl judgeStep js) (cycleStep sc w).1 := by
   have hsafeEnd := cycleStep_safe sc w hq.1
-  have hGend := G_cycle sc w fs h.g
+  have hnoIO : (cmdPhaseStart w).overflow = false := (cycleStep_ovf sc w hno).1
+  have hGend := G_cycle sc w fs h.g hno
   have hflagEnd := cycleStep_flag sc w h.flag
   have hns := no_starvation sc w hq.1
   have hcc := cycleStep_cmdCount sc w
@@ -183,7 +185,8 @@ theorem B_cycle (sc : Scripts) (fs : FState) (js : JState) (w : World) (h : B fs
   have hwend : (cycleStep sc w).1 = (cmdLoop sc K (processIO w0).1).1 := by
     rw [← hK, ← hw0]; rfl
   -- sockets of table users are drained at the end
-  obtain ⟨hg2, hd2⟩ := G_processIO fs w0 (G_congr fs w w0 h.g (fun x => by rw [← hw0]; exact grantAll_core w.users w.slots x) hw0n hw0a)
+  have hnoIO0 : (processIO w0).1.overflow = false := by rw [← hw0]; exact hnoIO
+  obtain ⟨hg2, hd2⟩ := G_processIO fs w0 (G_congr fs w w0 h.g (fun x => by rw [← hw0]; exact grantAll_core w.users w.slots x) hw0n hw0a) hnoIO0
   have hsafe2 : Safe (processIO w0).1 := processIO_safe _ (by rw [← hw0]; exact ⟨hq.1.1, hq.1.2⟩)
   have hdrain3 : ∀ x, (cmdLoop sc K (processIO w0).1).1.interactive x = true →
       ((cmdLoop sc K (processIO w0).1).1.net.get x).rx = [] := by
@@ -218,7 +221,7 @@ theorem B_cycle (sc : Scripts) (fs : FState) (js : JState) (w : World) (h : B fs
     have hxi2 : x ∈ js2.ids := by rw [← k2]; exact hxi
     have he2 : (js2.us.get x).eligible = true := by rw [← (k4 x).1]; exact he3
     obtain ⟨hlv, hcomp⟩ := helig2 x hxi2 he2
-    have hel := eligible_start fs js w h.g h.cpl h.live h.flag x hlv hcomp
+    have hel := eligible_start fs js w h.g h.cpl h.live h.flag x hlv hcomp hnoIO
     have hres := hns x hel (by rw [hwend]; exact hfin)
     rcases hres with hres | hres
     · rw [hcc x] at hres
@@ -294,24 +297,26 @@ theorem foldl_pstep (l : List Ev) (p : FState × JState) :
   | nil => rfl
   | cons e r ih => rw [List.foldl_cons, ih]; rfl
 
-theorem B_cycleRun (sc : Scripts) (fs : FState) (js : JState) (w : World) (h : B fs js w) (hq : Quiet w) :
+theorem B_cycleRun (sc : Scripts) (fs : FState) (js : JState) (w : World) (h : B fs js w) (hq : Quiet w)
+    (hno : (cycleRun sc (weight w + 1) w).1.overflow = false) :
     B ((cycleRun sc (weight w + 1) w).2.foldl fifoStep fs) ((cycleRun sc (weight w + 1) w).2.foldl judgeStep js)
       (cycleRun sc (weight w + 1) w).1 := by
-  have := (cycleRun_fold sc pstep (fun p w => B p.1 p.2 w)
-    (fun p w hb hq' => by rw [foldl_pstep]; exact B_cycle sc p.1 p.2 w hb hq')
-    (fun p w hb => B_clear p.1 p.2 w hb) (weight w + 1) w (fs, js) h hq (by omega)).1
+  have := (cycleRun_fold sc pstep (fun p w => w.overflow = false → B p.1 p.2 w)
+    (fun p w hb hq' hn => by rw [foldl_pstep]; exact B_cycle sc p.1 p.2 w (hb (cycleStep_ovf sc w hn).2) hq' hn)
+    (fun p w hb hn => B_clear p.1 p.2 w (hb hn)) (weight w + 1) w (fs, js) (fun _ => h) hq (by omega)).1 hno
   rw [foldl_pstep] at this
   exact this
 
 theorem B_step (sc : Scripts) (fs : FState) (js : JState) (w : World) (c : Cmd) (h : B fs js w) (hq : Quiet w)
-    (hc : (match c with | .send _ d => d.all plainChar | _ => true) = true) :
+    (hc : (match c with | .send _ d => d.all plainChar | _ => true) = true)
+    (hno : (step sc w c).1.overflow = false) :
     B ((step sc w c).2.foldl fifoStep fs) ((step sc w c).2.foldl judgeStep js) (step sc w c).1 := by
-  have hG := G_step sc w fs c h.g hc
+  have hG := G_step sc w fs c h.g hc hno
   have hF := step_flag sc w c h.flag
   cases c with
   | cycle =>
     have : step sc w .cycle = cycleRun sc (weight w + 1) w := by simp [step, hq.1.1]
-    rw [this]; exact B_cycleRun sc fs js w h hq
+    rw [this] at hno ⊢; exact B_cycleRun sc fs js w h hq hno
   | conn =>
     have hst : step sc w .conn = ({ w with nconn := w.nconn + 1 }, [Ev.conn (w.nconn + 1)]) := by simp [step, hq.1.1]
     rw [hst] at hG hF ⊢
@@ -323,7 +328,7 @@ theorem B_step (sc : Scripts) (fs : FState) (js : JState) (w : World) (c : Cmd) 
     · rename_i hcond
       intro hG hF
       simp only [Bool.and_eq_true, decide_eq_true_eq] at hcond
-      obtain ⟨⟨⟨hu1, hu2⟩, _⟩, hint⟩ := hcond
+      obtain ⟨⟨⟨⟨⟨⟨hu1, hu2⟩, _⟩, hint⟩, _⟩, _⟩, _⟩ := hcond
       have hmem : u ∈ js.ids := h.acc u hu1 hu2
       refine ⟨hG, ?_, ?_, ?_, h.acc, ?_, ?_, h.clean, h.mnb, hF⟩
       · constructor
@@ -377,7 +382,7 @@ theorem B_step (sc : Scripts) (fs : FState) (js : JState) (w : World) (c : Cmd) 
     · rename_i hcond
       intro hG hF
       simp only [Bool.and_eq_true, decide_eq_true_eq] at hcond
-      obtain ⟨⟨hu1, hu2⟩, _⟩ := hcond
+      obtain ⟨⟨⟨hu1, hu2⟩, _⟩, _⟩ := hcond
       -- the oracle state: clientOpen of u cleared when the close is observable
       have hjs : ∀ x, live (((if w.interactive u = true then [Ev.close u] else []).foldl judgeStep js).us.get x) = true →
           live (js.us.get x) = true ∧ x ≠ u := by
@@ -439,14 +444,15 @@ theorem B_step (sc : Scripts) (fs : FState) (js : JState) (w : World) (c : Cmd) 
     · intro _ _; exact h
 
 theorem B_run (sc : Scripts) (cs : List Cmd) (fs : FState) (js : JState) (w : World) (h : B fs js w) (hq : Quiet w)
-    (hp : plainCmds cs = true) :
+    (hp : plainCmds cs = true) (hno : (run sc w cs).1.overflow = false) :
     B ((run sc w cs).2.foldl fifoStep fs) ((run sc w cs).2.foldl judgeStep js) (run sc w cs).1 := by
   induction cs generalizing fs js w with
   | nil => exact h
   | cons c r ih =>
     simp only [plainCmds, List.all_cons, Bool.and_eq_true] at hp
-    simp only [run, List.foldl_append]
-    exact ih _ _ _ (B_step sc fs js w c h hq hp.1) (cursor_in_bounds sc w c hq) (by simpa [plainCmds] using hp.2)
+    have hno1 := run_ovf_head sc c r w hno
+    simp only [run, List.foldl_append] at hno ⊢
+    exact ih _ _ _ (B_step sc fs js w c h hq hp.1 hno1) (cursor_in_bounds sc w c hq) (by simpa [plainCmds] using hp.2) hno
 
 /-- **trace theorem 4** (`no_starvation`, `loop_bound_sufficient`, `no_idle_wait` at trace level; clauses `starved` and
     `idleWait`): for every history whose sent bytes are plain and every script oracle - kicks, drops, mode switches,
@@ -454,19 +460,21 @@ theorem B_run (sc : Scripts) (cs : List Cmd) (fs : FState) (js : JState) (w : Wo
     model: every user who was connected with a complete command (buffered or sent before the iteration began) when an
     iteration began, and is still connected when it ends, was served in it; and backend never asks the poller to block
     while a connected user has a complete command buffered. -/
-theorem judgeLive_events (sc : Scripts) (cs : List Cmd) (hp : plainCmds cs = true) : judgeLive (events sc cs) = [] := by
+theorem judgeLive_events (sc : Scripts) (cs : List Cmd) (hp : plainCmds cs = true)
+    (hno : (run sc {} cs).1.overflow = false) : judgeLive (events sc cs) = [] := by
   unfold judgeLive events
-  rw [(B_run sc cs {} {} {} B_init quiet_init hp).clean]
+  rw [(B_run sc cs {} {} {} B_init quiet_init hp hno).clean]
   rfl
 
 /-- **top theorem, four of the five clause oracles**: for every history with plain bytes and every script oracle the
     specification oracle finds nothing in the trace of the model except, possibly, verdicts of the clause `overtaken`
     (round robin across iterations aborted by an error), which is checked on every implementation trace but not proved
     for the model -/
-theorem judgeEv_events_eq_order (sc : Scripts) (cs : List Cmd) (hp : plainCmds cs = true) :
+theorem judgeEv_events_eq_order (sc : Scripts) (cs : List Cmd) (hp : plainCmds cs = true)
+    (hno : (run sc {} cs).1.overflow = false) :
     judgeEv (events sc cs) = judgeOrder (events sc cs) := by
   unfold judgeEv
-  rw [judgeStruct_events, judgeEfun_events, judgeFifo_events sc cs hp, judgeLive_events sc cs hp]
+  rw [judgeStruct_events, judgeEfun_events, judgeFifo_events sc cs hp hno, judgeLive_events sc cs hp hno]
   rfl
 
 -- non-vacuity: a history with an aborted and restarted iteration; the theorems speak about such traces
